@@ -245,10 +245,10 @@ func (i *Int) Neg(a kyber.Scalar) kyber.Scalar {
 	if !ok {
 		panic("invalid argument")
 	}
-	newNat.Int = *ai.M.Nat()
-	i.V.Set(newNat)
+	// 0 - a mod M (starting from M itself would leave Neg(0) = M unreduced)
+	newNat.Mod(compatible.NewInt(0), ai.M)
 	i.M = ai.M
-	i.V = *compatible.NewInt(0).Sub(&i.V, &ai.V, i.M)
+	i.V = *compatible.NewInt(0).Sub(newNat, &ai.V, i.M)
 
 	return i
 }
